@@ -17,7 +17,7 @@ LEVEL_TEXT = ('every point of the product is executed on the real script and cla
               'trailing slashes, symlinked parents, mount points, every candidate trash dir failing)')
 LEVEL_NOTE = ('trusted: CPython/shutil, tmpfs, shim mount rules (EXDEV/EBUSY/ismount); names other than the alphabet and '
               'permission failures of non-root users are not covered')
-RULE = ('product of kind (6) x spelling (24; plus 4 unusual entry names for the plain spelling) x option set (14, incl. three combinations) x layout (9: home trash whose info is a regular file / a dangling symlink, first use, existing pair whose payload is a dangling symlink, existing pair with the same name, orphan directory payload + orphan info with the same name, sticky .Trash, plain volume, every candidate blocked) minus duplicates (kind is irrelevant for '
+RULE = ('product of kind (6) x spelling (24; plus 4 unusual entry names for the plain spelling) x option set (15, incl. three combinations and a $HOME full of regex metacharacters) x layout (9: home trash whose info is a regular file / a dangling symlink, first use, existing pair whose payload is a dangling symlink, existing pair with the same name, orphan directory payload + orphan info with the same name, sticky .Trash, plain volume, every candidate blocked) minus duplicates (kind is irrelevant for '
         'spellings that do not name x); non-trivial = the run went past argument screening (a trash-dir candidate was '
         'examined or the entry moved), distinct = outcome class x spelling x option x layout')
 
@@ -25,7 +25,7 @@ NAMES_X = ['n.trashinfo', ' s p ', '-dash', 'nl\nx', '100%s %d%', '.dot']
 SPELL_X = ['x', '/abs/x', './x', 'd/../x', 'x/', 'x//', './/x', 'sd/../x', 'sdv/../x', 'ld/x', 'ldv/x', 'ld/../w/x']
 SPELL_DOT = ['.', '..', './', '../', 'd/.', 'd/..', 'd/./', 'd/../', 'sd/..', '/mnt/v2', '/mnt/v2/', '', 'nonexistent',
              'd']
-OPTS = ['-', '-f', '-iy', '-in', '-ieof', '-v', '-vv', 'td-same', 'td-other', 'hf-flag', 'hf-both', '-f-v', '-iy-v-td-same', '-f-hf-both']
+OPTS = ['-', '-f', '-iy', '-in', '-ieof', '-v', '-vv', 'td-same', 'td-other', 'hf-flag', 'hf-both', '-f-v', '-iy-v-td-same', '-f-hf-both', 'odd-home']
 LAYOUTS = ['home-cold', 'home-warm-samename', 'home-warm-orphans', 'home-warm-dangling', 'home-info-is-file', 'home-info-dangling', 'home-info-missing', 'vol-sticky', 'vol-plain', 'vol-blocked']
 
 
@@ -145,6 +145,10 @@ def run_case(c):
     elif o == '-f-hf-both':
         argv += ['-f', '--home-fallback']
         env['TRASH_ENABLE_HOME_FALLBACK'] = '1'
+    elif o == 'odd-home':
+        # $HOME is not a valid regular expression (the trash stays where the layouts put it, via XDG_DATA_HOME)
+        env['HOME'] = '/home/o(h +[x'
+        env['XDG_DATA_HOME'] = '/home/u/.local/share'
     elif o == 'hf-flag':
         argv.append('--home-fallback')
     elif o == 'hf-both':
